@@ -22,6 +22,13 @@ VARIABLES cnt   \* environment budget counters
 
 mcvars == <<node, net, h, cnt>>
 NoJoin == <<>>
+\* ready-made values for configuration files
+CCRemove2 == {CCVal(RemoveOp, 2)}
+CCAdd3 == {CCVal(AddNodeOp, 3)}
+CCAdd3Remove2 == {CCVal(AddNodeOp, 3), CCVal(RemoveOp, 2)}
+Join3V == (3 :> "V")
+Join3N == (3 :> "N")
+CCAddNV3 == {CCVal(AddNonVotingOp, 3), CCVal(AddNodeOp, 3)}
 
 \* Ready, then apply everything that was handed out (used by Eager and to settle the bootstrap)
 RECURSIVE ApplyAll(_, _)
